@@ -62,7 +62,7 @@ func c16Capture(f func()) (out string, pan string) {
 }
 
 func c16Message(c c16Case, rng *rand.Rand) string {
-	prefix := map[string]string{".syn": ".syn close connection", "other": []string{"foo", "remote", "Xyz", "0"}[rng.Intn(4)]}[c.Prefix]
+	prefix := map[string]string{".syn": ".syn close connection", ".syn1": ".syn", ".syn2": ".syn close", ".synb": ".syn  ", "other": []string{"foo", "remote", "Xyz", "0"}[rng.Intn(4)]}[c.Prefix]
 	if prefix == "" {
 		prefix = c.Prefix
 	}
@@ -268,6 +268,45 @@ func TestC16Agg(t *testing.T) {
 					bads = append(bads, bad{c, msg, "panic: " + pan})
 				}
 			}
+		}
+	}
+	config.Client.TermColorsEnable = false
+	vWriteJSON(t, "VERIF_OUT", map[string]interface{}{"evaluations": evals, "bad": bads})
+}
+
+// The mapreduce result table a dmap client prints: AGGREGATE records with group keys and string values taken from log
+// content (ASCII, umlauts, CJK, an emoji, an embedded ESC sequence) go through the real MaprHandler into the global result,
+// which is rendered with and without colours; with the escape sequences removed both tables must be the same text.
+func TestC16Table(t *testing.T) {
+	vInit("stdout")
+	query, err := mapr.NewQuery("select count($line),last($msg),$city group by $city order by count($line)")
+	if err != nil {
+		t.Fatal(err)
+	}
+	var bads []map[string]string
+	evals := 0
+	sets := [][]string{{"Berlin", "Oslo", "Rome"}, {"Zürich", "Kraków", "São Paulo"}, {"東京", "Köln", "x"}, {"a😀b", "ÅÄÖ", "plain"}}
+	for _, cities := range sets {
+		render := func(colour bool) string {
+			config.Client.TermColorsEnable = colour
+			global := mapr.NewGlobalGroupSet()
+			h := NewMaprHandler("srv1", query, global)
+			for i, c := range cities {
+				msg := fmt.Sprintf("AGGREGATE|srv1|%s∥%d∥count($line)≔%d∥last($msg)≔grüße aus %s∥$city≔%s∥", c, i+1, i+1, c, c)
+				h.Write(append([]byte(msg), 0xAC))
+			}
+			res, _, err := global.Result(query, 100)
+			h.Shutdown()
+			if err != nil {
+				return "error: " + err.Error()
+			}
+			return res
+		}
+		plain := render(false)
+		coloured := c16Esc.ReplaceAllString(render(true), "")
+		evals++
+		if plain != coloured {
+			bads = append(bads, map[string]string{"uncoloured": plain, "coloured_without_escapes": coloured})
 		}
 	}
 	config.Client.TermColorsEnable = false
